@@ -232,6 +232,21 @@ func c20Worker(ctx *core.Ctx) *core.Result {
 			}
 		}
 	}
+	// the part-shape combinations of C18 (targets made of IPv4, IPv6 and raw
+	// parts, with and without [APPEND], chains without permitting rules,
+	// several vsys / policies): legal inputs that must not crash the merge
+	{
+		m := &c18{ctx: ctx, res: x.res, sc: x.sc, prop: "C20"}
+		n0 := x.res.Evaluations
+		m.runASA()
+		m.runIOS()
+		m.runLinux()
+		m.runPanos()
+		m.runNSX()
+		m.runPanosMulti()
+		m.runNSXMulti()
+		x.res.Count("merge_shape_inputs", x.res.Evaluations-n0)
+	}
 	// info files: every prefix truncation and type confusion of each field
 	if ctx.Shard == 0 {
 		base := `{"generated_by":"x","model":"ASA","ip_list":["10.1.13.33"],"name_list":["router"],"policy_distribution_point":"10.1.1.1"}`
@@ -259,7 +274,7 @@ func c20Worker(ctx *core.Ctx) *core.Result {
 func init() {
 	registerSharded("C20", c20Worker, func(tier string) core.Meta {
 		return core.Meta{ID: "C20", Level: "exploration",
-			Rule: "the statement's finite family, enumerated completely: for every configuration line of every DEVICE and NETSPOC block (main, ipv6, raw) of go/testdata/*.t, in the context of its own test: every word-prefix truncation, single-token deletion, line emptied (quick) plus token duplication, adjacent swap, indentation +1/-1/0, truncation of the file at every line (thorough); whole-file cases (empty, NUL, 64 KiB token, unterminated quote, only [APPEND], binary); both argument positions; info files: every prefix truncation and type confusion; each mutant goes through the real device.CompareFiles in-process; verdict: exit status 0 or 1, message on stderr when 1, no runtime panic, no case longer than 20 s; identical mutants are run once; non-trivial = mutants the tool rejected or crashed on; status files and do-approve/missing-approve inputs: see C13 (damaged status files)",
+			Rule: "the statement's finite family, enumerated completely: for every configuration line of every DEVICE and NETSPOC block (main, ipv6, raw) of go/testdata/*.t, in the context of its own test: every word-prefix truncation, single-token deletion, line emptied (quick) plus token duplication, adjacent swap, indentation +1/-1/0, truncation of the file at every line (thorough); whole-file cases (empty, NUL, 64 KiB token, unterminated quote, only [APPEND], binary); both argument positions; the part-shape combinations of C18 as further legal inputs (crash oracle only); info files: every prefix truncation and type confusion; each mutant goes through the real device.CompareFiles in-process; verdict: exit status 0 or 1, message on stderr when 1, no runtime panic, no case longer than 20 s; identical mutants are run once; non-trivial = mutants the tool rejected or crashed on; status files and do-approve/missing-approve inputs: see C13 (damaged status files)",
 			Assumptions: []string{"a runtime panic recovered in-process is what the binaries turn into exit status 2 plus a Go trace (confirmed on the real binary for each call site listed in known-findings.json)"},
 			Bounds:      map[string]any{"quick": "truncate, delete-token, empty-line operators", "thorough": "all operators + file truncations"},
 		}
